@@ -293,6 +293,7 @@ def run_case(case, ctx):
             for children in ((True, False) if k != "prop" else (True,)):
                 for keep_id in (False, True):
                     c = dict(case, nodes=[i], flags=[children, keep_id])
+                    rec.evaluation()
                     nontriv = bool(model.model_of(o).get("sections") or model.model_of(o).get("properties")
                                    or model.model_of(o).get("values"))
                     rec.case(core.h([enc(no_ids(spec)), i, children, keep_id]), nontriv)
